@@ -2,5 +2,6 @@ SPECIFICATION Spec
 CONSTANTS Dev = {}
  SkipCheck = {}
  LZ = {0, 1, 2}
-INVARIANTS Agreement NeverPanics LieImpliesAbort StoredIffDone NoEncryptedFrameUnlessDone
+ MaxAttempts = 2
+INVARIANTS Agreement NeverPanics NeverUnkeyed LieImpliesAbort StoredIffDone NoEncryptedFrameUnlessDone
 PROPERTIES HonestCompletes LieEventuallyAborts
